@@ -128,6 +128,15 @@ def sample_stacks(ctx, target, directed=False):
             desc["shifted_onto_cell_face"] = True
         if noise:
             a.rattle(noise / 2, seed=int(rng.integers(0, 10 ** 6)))
+        if not a.get_pbc().all() and done % 5 == 2:
+            # directed: the same stack in a box whose non-periodic vector is a short dummy (the atoms do not fit: the entry of get_clusters
+            # has to enlarge the box); positions are not touched
+            ax_ = [i for i in range(3) if not a.get_pbc()[i]][0]
+            c_ = np.array(a.get_cell())
+            c_[ax_] *= 3.0 / np.linalg.norm(c_[ax_])
+            a.set_cell(c_, scale_atoms=False)
+            desc["dummy_short_cell_vector"] = True
+            ctx.count("stack_in_short_dummy_box")
         perm = rng.permutation(len(a))
         a = a[perm]
         inv = {int(old): new for new, old in enumerate(perm)}
